@@ -37,17 +37,51 @@ def do_check(argv):
     mod = importlib.import_module("vp.props." + pid)
     limit = int(os.environ.get("VERIF_TIMEOUT", "1500" if tier == "quick" else "7200"))
 
+    class CheckTimeout(BaseException):
+        """not an Exception: harness code that swallows `Exception` (to record a crash of the code under test) must not swallow the watchdog"""
+
+    fired = {"n": 0}
+
     def on_alarm(signum, frame):
-        raise TimeoutError("check exceeded %d s (case in flight: %r)" % (limit, getattr(ctx, "in_flight", None)))
+        fired["n"] += 1
+        signal.alarm(5)            # re-arm: keep interrupting until the stack is unwound
+        raise CheckTimeout("check exceeded %d s (case in flight: %r)" % (limit, getattr(ctx, "in_flight", None)))
+
+    def hard_stop():
+        # last resort (the soft watchdog did not get the main thread out within 90 s, e.g. blocked in C code): report and leave
+        import json
+        import threading
+        def go():
+            try:
+                os.makedirs(os.path.join(common.OUT, "replay"), exist_ok=True)
+                rp = os.path.join(common.OUT, "replay", "%s-%s-%d-timeout.json" % (pid, tier, seed))
+                with open(rp, "w") as f:
+                    json.dump(dict(property=pid, kind="check-machinery", note="the check did not finish within %d s and could not be interrupted; the property is not shown to hold" % limit,
+                                   in_flight=repr(getattr(ctx, "in_flight", None))[:2000], rerun="./bin/check %s --tier %s" % (pid, tier)), f, indent=1)
+                print("VIOLATION property=%s replay=%s no-failing-input-found" % (pid, rp), flush=True)
+            finally:
+                os._exit(1)
+        t = threading.Timer(limit + 90, go)
+        t.daemon = True
+        t.start()
+        return t
     signal.signal(signal.SIGALRM, on_alarm)
     signal.alarm(limit)
+    timer = hard_stop()
     try:
-        mod.run(ctx)
-    except Exception as e:  # harness failure or hang: the property is not shown to hold
+        try:
+            mod.run(ctx)
+        finally:
+            signal.alarm(0)
+    except CheckTimeout as e:
+        signal.alarm(0)
+        ctx.proof_failures.append(("check-machinery:timeout", str(e)))
+    except Exception as e:  # harness failure: the property is not shown to hold
         tb = traceback.format_exc()
         print(tb, file=sys.stderr)
         ctx.proof_failures.append(("check-machinery:" + type(e).__name__, tb[-3000:]))
     signal.alarm(0)
+    timer.cancel()
     return ctx.finish()
 
 
